@@ -1,4 +1,5 @@
 import TantivyModel.Model.Tokenizer.Basic
+import TantivyModel.Gen.Tokenizer
 /-!
 # Snippet generation (C19): search_fragments, select_best_fragment_combination,
 collapse_overlapped_ranges, Snippet::to_html
@@ -35,12 +36,21 @@ structure Frag where
 -- mirrors: src/snippet/mod.rs::new
 def Frag.new (o : Nat) : Frag := ⟨0, o, o, []⟩
 
-/-- the stop offset is overwritten by *every* token; term tokens add score and a highlight
+/-- how `try_add_token` moves the fragment's stop offset, read from the source by the extractor:
+0 = `self.stop_offset = token.offset_to` (plain assignment: the *last* token decides),
+otherwise `self.stop_offset = self.stop_offset.max(token.offset_to)` (running maximum) -/
+def stopMode : Nat := Gen.SNIPPET_STOP_OFFSET_IS_MAX
+
+def stopAfter (mode : Nat) (stop tokenTo : Nat) : Nat :=
+  if mode = 0 then tokenTo else max stop tokenTo
+
+/-- every token moves the stop offset (`stopAfter`); term tokens add score and a highlight
 -- mirrors: src/snippet/mod.rs::try_add_token -/
-def Frag.add (f : Frag) (t : STok) : Frag :=
+def Frag.add (mode : Nat) (f : Frag) (t : STok) : Frag :=
   match t.score with
-  | some sc => { f with stop := t.to, score := f.score + sc, hl := f.hl ++ [(t.from_, t.to)] }
-  | none => { f with stop := t.to }
+  | some sc => { f with stop := stopAfter mode f.stop t.to, score := f.score + sc,
+                        hl := f.hl ++ [(t.from_, t.to)] }
+  | none => { f with stop := stopAfter mode f.stop t.to }
 
 /-- `if fragment.score > 0.0 { fragments.push(fragment) }` -/
 def emit (f : Frag) : List Frag := if f.score > 0 then [f] else []
@@ -49,16 +59,16 @@ def emit (f : Frag) : List Frag := if f.score > 0 then [f] else []
 A token that would make the fragment longer than `M` *bytes* closes it and becomes the first
 token of a new fragment **unconditionally**.
 -- mirrors: src/snippet/mod.rs::search_fragments -/
-def searchAux (M : Nat) : Frag → List STok → Option (List Frag)
+def searchAux (mode M : Nat) : Frag → List STok → Option (List Frag)
   | f, [] => some (emit f)
   | f, t :: ts =>
     if t.to < f.start then none
     else if t.to - f.start > M then
-      (searchAux M ((Frag.new t.from_).add t) ts).map (emit f ++ ·)
-    else searchAux M (f.add t) ts
+      (searchAux mode M ((Frag.new t.from_).add mode t) ts).map (emit f ++ ·)
+    else searchAux mode M (f.add mode t) ts
 
-def searchFragments (M : Nat) (ts : List STok) : Option (List Frag) :=
-  searchAux M (Frag.new 0) ts
+def searchFragments (mode M : Nat) (ts : List STok) : Option (List Frag) :=
+  searchAux mode M (Frag.new 0) ts
 
 /-- `compare(x, y) == Greater` for the comparator given to `max_by`: higher score, ties broken
 towards the smaller `(start_offset, stop_offset)` -/
@@ -88,8 +98,8 @@ def mkSnippet (s : Text) (f : Frag) : Option Snippet :=
     else none
 
 /-- `SnippetGenerator::snippet(text)` given the analyzed tokens -/
-def snippet (s : Text) (M : Nat) (ts : List STok) : Option Snippet :=
-  match searchFragments M ts with
+def snippet (mode : Nat) (s : Text) (M : Nat) (ts : List STok) : Option Snippet :=
+  match searchFragments mode M ts with
   | none => none
   | some frags =>
     match selectBest frags with
